@@ -58,3 +58,14 @@ def gen_tokenizer(items):
         return DL('SNIPPET_PREFIX', [ord(ch) for ch in a.group(1)], 'DEFAULT_SNIPPET_PREFIX as scalar values') + '\n' + \
                DL('SNIPPET_POSTFIX', [ord(ch) for ch in b.group(1)], 'DEFAULT_SNIPPET_POSTFIX as scalar values')
     items.append(snippet_tags)
+
+    def stop_offset_rule():
+        # FragmentCandidate::try_add_token: how the fragment's stop offset follows the tokens
+        body = fn_body(sn, 'try_add_token')
+        if re.search(r'self\.stop_offset\s*=\s*token\.offset_to\s*;', body):
+            return D('SNIPPET_STOP_OFFSET_IS_MAX', 0, 'try_add_token: `self.stop_offset = token.offset_to` (0 = plain assignment, 1 = running maximum)')
+        if re.search(r'self\.stop_offset\s*=\s*self\.stop_offset\.max\(\s*token\.offset_to\s*\)\s*;', body) or \
+           re.search(r'self\.stop_offset\s*=\s*(?:std::cmp::)?max\(\s*self\.stop_offset\s*,\s*token\.offset_to\s*\)\s*;', body):
+            return D('SNIPPET_STOP_OFFSET_IS_MAX', 1, 'try_add_token: `self.stop_offset = self.stop_offset.max(token.offset_to)` (0 = plain assignment, 1 = running maximum)')
+        raise Fail(f'{sn}: try_add_token no longer sets stop_offset to token.offset_to or to the running maximum')
+    items.append(stop_offset_rule)
